@@ -37,6 +37,7 @@ def main (args : List String) : IO UInt32 := do
   match args with
   | ["time"] => loopPure stdin stdout timeStep; return 0
   | ["dkgsm"] => loopState stdin stdout dkgStep {}; return 0
+  | ["net"] => loopState stdin stdout netStep {}; return 0
   | ["cache"] => loopState stdin stdout cacheStep (Drand.Beacon.Cache.empty 96); return 0
   | "chain" :: _ => loopState stdin stdout chainStep (Drand.Chain.Stack.init true []); return 0
   | ["hash"] => loopPure stdin stdout hashStep; return 0
